@@ -172,9 +172,13 @@ def run(chk, repo):
                      "restored afterwards, its own register block written")
     from . import c18
     import itertools
+    # (thorough tier: terminals with up to 6 FMMUs, four owner kinds)
+    sizes = (1, 2, 3, 4, 5, 6) if chk.tier == "thorough" else (1, 2, 3, 4)
+    owners = (None, 0, 0x5000, 0x41000) if chk.tier == "thorough" else (
+        None, 0, 0x5000)
     c18.fmmu_registers(chk, repo, "R20.8", tables=[
-        list(t) for n in (1, 2, 3, 4) for t in itertools.product(
-            (None, 0, 0x5000), repeat=n)])
+        list(t) for n in sizes for t in itertools.product(
+            owners, repeat=n)])
     chk.doc("R20.5", "the FMMU table is per terminal")
     per_instance_rule(chk, repo, "R20.5", ["ebpfcat.ethercat.Terminal"], "a claim on one terminal "
                       "occupies the same slot on every other terminal")
